@@ -196,7 +196,7 @@ Definition dispatch (f : Z) (x : sx) : sx :=
                      of_option (fun e => A (perr_code e)) e]
               | PRaise _ => L []
               end])
-        (build (t_prefix tab) (t_pat tab) (t_real rtab) (t_wl tab) (t_wm tab)
+        (build (t_prefix tab) (fun a b => N.eqb (t_pat tab a) (t_pat tab b)) (t_real rtab) (t_wl tab) (t_wm tab)
                locale has_merge ps)
   | 1 => (* posixpath.dirname *)
       of_str (dirname (to_str x))
